@@ -223,7 +223,7 @@ fn bobs_plain(eb: &EntityBuilder) -> String {
         with_type!(t, T, {
             let has = eb.has::<T>();
             let got = eb.get::<&T>().map(|r| r.serial());
-            assert_eq!(has, got.is_some(), "harness: EntityBuilder::has and get disagree");
+            assert_eq!(has, got.is_some(), "impl-inconsistency: EntityBuilder::has and get disagree");
             if let Some(s) = got {
                 vals.push((t, s));
             }
@@ -242,8 +242,8 @@ fn bobs_clone(eb: &mut EntityBuilderClone) -> String {
             let has = eb.has::<T>();
             let got = eb.get::<&T>().map(|r| r.serial());
             let got_mut = eb.get_mut::<&mut T>().map(|r| r.serial());
-            assert_eq!(got, got_mut, "harness: EntityBuilderClone::get and get_mut disagree");
-            assert_eq!(has, got.is_some(), "harness: EntityBuilderClone::has and get disagree");
+            assert_eq!(got, got_mut, "impl-inconsistency: EntityBuilderClone::get and get_mut disagree");
+            assert_eq!(has, got.is_some(), "impl-inconsistency: EntityBuilderClone::has and get disagree");
             if let Some(s) = got {
                 vals.push((t, s));
             }
